@@ -129,7 +129,7 @@ Proof. exact lin_nf_quads12. Qed.
 Print Assumptions C12_lin_nf_quads.
 
 Theorem C12_quads_shape :
-  length quads12 = 294 /\
+  length quads12 = 308 /\
   forallb (fun s => Nat.eqb (length (sc_calls s)) 4 &&
                     match sc_calls s with CDelMeta 1 None :: _ => true | _ => false end) quads12 = true.
 Proof. split; vm_compute; reflexivity. Qed.
@@ -150,10 +150,21 @@ Example C12_onepid_nonvacuous :
     dr_order 1 [CDelMeta 1 None; CRetrMeta 1 0; CRetrMeta 1 1] 0 dr_w0 c = [2; 0; 1] /\
     lookup (AMeta 1 0) (fs dr_w0) = Some (CData 1 1 1) /\
     lookup (AMeta 1 1) (fs dr_w0) = Some (CData 1 1 1) /\
-    locks dr_w0 = [] /\ fs (snd c) = [].
+    locks dr_w0 = [] /\ fs (snd c) = [] /\
+    refs_typed (fs dr_w0) /\ Integrity.Integrity dr_w0 /\
+    seq_run [CDelMeta 1 None; CRetrMeta 1 0; CRetrMeta 1 1] [2; 0; 1] dr_w0 =
+      Some (snd c, [Val (VBytes (CData 1 1 1)); Val VUnit; Exn EValueError]).
 Proof.
   eexists. split; [vm_compute; reflexivity|].
   split; [apply succs_nil_stuck; vm_compute; reflexivity|].
-  vm_compute. repeat split; reflexivity.
+  split; [vm_compute; reflexivity|]. split; [vm_compute; reflexivity|].
+  split; [vm_compute; reflexivity|]. split; [vm_compute; reflexivity|].
+  split; [vm_compute; reflexivity|]. split; [vm_compute; reflexivity|].
+  split.
+  { intros a v Hl. destruct a; simpl; auto; vm_compute in Hl; discriminate Hl. }
+  split.
+  { eapply Integrity.start_world_ok with (h := [CStoreMeta 1 0 SrcPath 1 1; CStoreMeta 1 1 SrcPath 1 1]).
+    vm_compute. reflexivity. }
+  vm_compute. reflexivity.
 Qed.
 Print Assumptions C12_onepid_nonvacuous.
